@@ -105,3 +105,20 @@ m("c02-index-order-instead-of-topological", ["C02"], A_, "        for i in self.
 m("c02-shift-drops-original-noise", ["C02"], A_, "                    noise = self.noise_distributions[i](n) + shift_interventions[i](n)", "                    noise = shift_interventions[i](n)")
 m("c02-noise-iv-adds-original", ["C02"], A_, "                    noise = noise_interventions[i](n)", "                    noise = noise_interventions[i](n) + self.noise_distributions[i](n)")
 m("c02-positive-weights-only", ["C02"], A_, "self.assignments[i](X[:, self.A[:, i] != 0])", "self.assignments[i](X[:, self.A[:, i] > 0])", note="needs a negative entry in the adjacency")
+
+# ---- C05
+ND = "sempler/normal_distribution.py"
+m("c05-marginal-sorts-indices", ["C05"], ND, "        X = np.atleast_1d(X)\n        # Compute marginal mean/variance", "        X = np.sort(np.atleast_1d(X))\n        # Compute marginal mean/variance")
+m("c05-conditional-sorts-X", ["C05"], ND, "        X = np.atleast_1d(X)\n        x = np.atleast_1d(x)", "        X = np.sort(np.atleast_1d(X))\n        x = np.atleast_1d(x)", note="needs X given in non-increasing order")
+m("c05-no-disjointness-check", ["C05"], ND, "        if len(set(Y) & set(X)) > 0:", "        if len(set(Y) & set(X)) > 1:")
+m("c05-cov-x-not-inverted-in-mean", ["C05"], ND, "        mean = mean_y + cov_yx @ np.linalg.inv(cov_x) @ (x - mean_x)", "        mean = mean_y + cov_yx @ cov_x @ (x - mean_x)")
+m("c05-size-check-off", ["C05"], ND, "        if len(X) != len(x):", "        if len(X) < len(x):", note="a too-short x is then silently broadcast")
+m("c05-ctor-size-check-one-sided", ["C05"], ND, "        if len(mean) != len(covariance):", "        if len(mean) > len(covariance):")
+m("c05-pinv-regularised", ["C05"], ND, "        covariance = cov_y - cov_yx @ np.linalg.inv(cov_x) @ cov_xy", "        covariance = cov_y - cov_yx @ np.linalg.inv(cov_x + 1e-7 * np.eye(len(X))) @ cov_xy", note="silent ridge term: only visible against an exact oracle")
+
+# ---- C06
+m("c06-intercept-plus", ["C06"], ND, "        intercept = self.mean[y] - coefs @ self.mean", "        intercept = self.mean[y] + coefs @ self.mean")
+m("c06-mse-drop-factor-two", ["C06"], ND, "        mse = var_y + coefs_xs @ cov @ coefs_xs.T - 2 * cov[y, :] @ coefs_xs.T", "        mse = var_y + coefs_xs @ cov @ coefs_xs.T - cov[y, :] @ coefs_xs.T")
+m("c06-coefs-sorted-fill", ["C06"], ND, "            coefs[Xs] = np.linalg.solve(cov_xs, cov_y_xs)", "            coefs[np.sort(Xs)] = np.linalg.solve(cov_xs, cov_y_xs)", note="needs S given in non-increasing order")
+m("c06-regress-drops-first", ["C06"], ND, "        Xs = np.atleast_1d(Xs)\n        if len(Xs) > 0:", "        Xs = np.atleast_1d(Xs)\n        Xs = Xs[1:] if len(Xs) > 3 else Xs\n        if len(Xs) > 0:")
+m("c06-mse-abs", ["C06"], ND, "        return mse\n", "        return abs(mse) + 1e-9\n")
